@@ -803,6 +803,19 @@ func (fr *Frame) evalCall(sc *Scope, x *ECall) Val {
 			cfail("loopFresh() outside a loop clause")
 		}
 		return scalar(boolT, And(Not(Eq(v.C[0], Nil)), fr.isFreshSince(fr.refOf(v), sc.loopAlloc)))
+	case "captures":
+		// captures(x): the goroutine being spawned (callsite go:) receives a reference to x's object,
+		// as an argument or in a captured variable
+		argn(1)
+		v := fr.evalExpr(sc, x.Args[0])
+		r := fr.refOf(v)
+		alts := []Term{False}
+		for _, c := range fr.top.goCaps {
+			if v.T == nil || mayAlias(c.T, v.T) {
+				alts = append(alts, Eq(c.C, r))
+			}
+		}
+		return scalar(boolT, And(Not(Eq(r, Nil)), Or(alts...)))
 	case "allocated":
 		argn(1)
 		v := fr.evalExpr(sc, x.Args[0])
